@@ -55,7 +55,7 @@ where
         if let Some(enumeration) = &self.enumeration {
             writeln!(writer, "   enumeration: Some(vec![")?;
             for value in enumeration {
-                writeln!(writer, "      \"{value}\".to_string(),")?;
+                writeln!(writer, "      {value:?}.to_string(),")?;
             }
             writeln!(writer, "   ]),")?;
         }
